@@ -409,141 +409,150 @@ func runC04(c *core.Ctx) {
 	c04TrackedLifetime(c)
 	c04AllPendingComplete(c)
 	c.Group("middleware-acs")
-	for _, idpInit := range []bool{false, true} {
-		for nTracked := 0; nTracked <= 2; nTracked++ {
-			idpInit, nTracked := idpInit, nTracked
-			type mwIRT struct {
-				name string
-				f    func(ids []string) *string
-			}
-			mwIRTs := []mwIRT{
-				{"flow0", func(ids []string) *string {
-					if len(ids) > 0 {
-						return samlgen.S(ids[0])
-					}
-					return samlgen.S("id-never-issued")
-				}},
-				{"flow1", func(ids []string) *string {
-					if len(ids) > 1 {
-						return samlgen.S(ids[1])
-					}
-					return samlgen.S("id-never-issued-1")
-				}},
-				{"foreign", func([]string) *string { return samlgen.S("id-foreign-request") }},
-				{"empty", func([]string) *string { return samlgen.S("") }},
-				{"absent", func([]string) *string { return nil }},
-				{"prefix", func(ids []string) *string {
-					if len(ids) > 0 {
-						return samlgen.S(ids[0][:len(ids[0])-3])
-					}
-					return samlgen.S("id-")
-				}},
-			}
-			for ri := range mwIRTs {
-				for ci := range mwIRTs {
-					for present := 0; present < 1<<uint(nTracked); present++ {
-						for _, layDecoy := range []struct {
-							lay   harness.Layout
-							decoy string
-						}{{layouts[0], ""}, {layouts[1], ""}, {layouts[0], "session-token-under-tracking-name"}, {layouts[0], "garbage-under-tracking-name"}} {
-							lay, decoy := layDecoy.lay, layDecoy.decoy
-							ri, ci, present := ri, ci, present
-							key := fmt.Sprintf("middleware/idpinit=%v/tracked=%d/presented=%02b/resp=%s/conf=%s/lay=%s", idpInit, nTracked, present, mwIRTs[ri].name, mwIRTs[ci].name, lay)
-							if decoy != "" {
-								key += "/decoy-cookie=" + decoy
-							}
-							c.Case(key, func(t *core.T) {
-								w := newC17World(c17Cfg{binding: "redirect", scheme: "https", key: "sp2048", rsf: "nil"})
-								w.m.ServiceProvider.AllowIDPInitiated = idpInit
-								st := &c17State{jar: map[string]c17Cookie{}, ever: map[string]string{}}
-								for k := 0; k < nTracked; k++ {
-									st.flows = append(st.flows, c17Flow{url: w.urls[k], user: w.users[k]})
+	// (spKey "spec256" is the configuration that sets its own landing page, Options.DefaultRedirectURI: where untracked logins would land
+	// says nothing about whether they are allowed. AllowIDPInitiated is what samlsp.New made of Options unless the case turns it on.)
+	for _, mwKey := range []string{"sp2048", "spec256"} {
+		for _, idpInit := range []bool{false, true} {
+			for nTracked := 0; nTracked <= 2; nTracked++ {
+				idpInit, nTracked, mwKey := idpInit, nTracked, mwKey
+				type mwIRT struct {
+					name string
+					f    func(ids []string) *string
+				}
+				mwIRTs := []mwIRT{
+					{"flow0", func(ids []string) *string {
+						if len(ids) > 0 {
+							return samlgen.S(ids[0])
+						}
+						return samlgen.S("id-never-issued")
+					}},
+					{"flow1", func(ids []string) *string {
+						if len(ids) > 1 {
+							return samlgen.S(ids[1])
+						}
+						return samlgen.S("id-never-issued-1")
+					}},
+					{"foreign", func([]string) *string { return samlgen.S("id-foreign-request") }},
+					{"empty", func([]string) *string { return samlgen.S("") }},
+					{"absent", func([]string) *string { return nil }},
+					{"prefix", func(ids []string) *string {
+						if len(ids) > 0 {
+							return samlgen.S(ids[0][:len(ids[0])-3])
+						}
+						return samlgen.S("id-")
+					}},
+				}
+				for ri := range mwIRTs {
+					for ci := range mwIRTs {
+						for present := 0; present < 1<<uint(nTracked); present++ {
+							for _, layDecoy := range []struct {
+								lay   harness.Layout
+								decoy string
+							}{{layouts[0], ""}, {layouts[1], ""}, {layouts[0], "session-token-under-tracking-name"}, {layouts[0], "garbage-under-tracking-name"}} {
+								lay, decoy := layDecoy.lay, layDecoy.decoy
+								ri, ci, present := ri, ci, present
+								key := fmt.Sprintf("middleware/idpinit=%v/tracked=%d/presented=%02b/resp=%s/conf=%s/lay=%s", idpInit, nTracked, present, mwIRTs[ri].name, mwIRTs[ci].name, lay)
+								if mwKey != "sp2048" {
+									key += "/own-landing-page"
 								}
-								var ids []string
-								for k := 0; k < nTracked; k++ {
-									if bad := c17Start(w, st, k); len(bad) > 0 {
-										t.Fail("C04/middleware/start-failed", "%v", bad)
-										return
+								if decoy != "" {
+									key += "/decoy-cookie=" + decoy
+								}
+								c.Case(key, func(t *core.T) {
+									w := newC17World(c17Cfg{binding: "redirect", scheme: "https", key: mwKey, rsf: "nil"})
+									if idpInit {
+										w.m.ServiceProvider.AllowIDPInitiated = true
 									}
-									ids = append(ids, st.flows[k].reqID)
-								}
-								cookies := map[string]string{}
-								var presentedIDs []string
-								for k := 0; k < nTracked; k++ {
-									if present&(1<<uint(k)) != 0 {
-										cookies["saml_"+st.flows[k].index] = st.flows[k].cookieVal
-										presentedIDs = append(presentedIDs, ids[k])
+									st := &c17State{jar: map[string]c17Cookie{}, ever: map[string]string{}}
+									for k := 0; k < nTracked; k++ {
+										st.flows = append(st.flows, c17Flow{url: w.urls[k], user: w.users[k]})
 									}
-								}
-								switch decoy {
-								case "session-token-under-tracking-name":
-									// a session token of this very middleware presented under a tracking-cookie name: it tracks no request
-									rec := httptest.NewRecorder()
-									as := c16Assertion()
-									as.Subject.NameID.Value = "alice" // a subject that can be a cookie-name suffix
-									if err := w.m.Session.CreateSession(rec, httptest.NewRequest("POST", w.root+"/saml/acs", nil), as); err == nil {
-										for _, ck := range rec.Result().Cookies() {
-											if ck.Name == "token" {
-												cookies["saml_alice"] = ck.Value
-												cookies["saml_x"] = ck.Value
-											}
+									var ids []string
+									for k := 0; k < nTracked; k++ {
+										if bad := c17Start(w, st, k); len(bad) > 0 {
+											t.Fail("C04/middleware/start-failed", "%v", bad)
+											return
+										}
+										ids = append(ids, st.flows[k].reqID)
+									}
+									cookies := map[string]string{}
+									var presentedIDs []string
+									for k := 0; k < nTracked; k++ {
+										if present&(1<<uint(k)) != 0 {
+											cookies["saml_"+st.flows[k].index] = st.flows[k].cookieVal
+											presentedIDs = append(presentedIDs, ids[k])
 										}
 									}
-								case "garbage-under-tracking-name":
-									cookies["saml_x"] = "not.a.token"
-								}
-								resp := samlgen.DefaultResponse()
-								resp.InResponseTo = mwIRTs[ri].f(ids)
-								resp.Destination = samlgen.S(w.root + "/saml/acs")
-								a := samlgen.DefaultAssertion()
-								a.Confirmations[0].InResponseTo = mwIRTs[ci].f(ids)
-								a.Confirmations[0].Recipient = samlgen.S(w.root + "/saml/acs")
-								a.Audiences = [][]string{{w.root + "/saml/metadata"}}
-								doc := samlgen.Doc(harness.BuildResponse(resp, []*samlgen.Assertion{a}, lay, idp1(), nil))
-								form := url.Values{"SAMLResponse": {b64(doc)}}
-								// RelayState names the flow the Response answers, when that flow's cookie is presented
-								for k := 0; k < nTracked; k++ {
-									if resp.InResponseTo != nil && *resp.InResponseTo == ids[k] {
-										form.Set("RelayState", st.flows[k].index)
+									switch decoy {
+									case "session-token-under-tracking-name":
+										// a session token of this very middleware presented under a tracking-cookie name: it tracks no request
+										rec := httptest.NewRecorder()
+										as := c16Assertion()
+										as.Subject.NameID.Value = "alice" // a subject that can be a cookie-name suffix
+										if err := w.m.Session.CreateSession(rec, httptest.NewRequest("POST", w.root+"/saml/acs", nil), as); err == nil {
+											for _, ck := range rec.Result().Cookies() {
+												if ck.Name == "token" {
+													cookies["saml_alice"] = ck.Value
+													cookies["saml_x"] = ck.Value
+												}
+											}
+										}
+									case "garbage-under-tracking-name":
+										cookies["saml_x"] = "not.a.token"
 									}
-								}
-								rep := w.do(0, "POST", "/saml/acs", cookies, form, "c04mw")
-								t.Impl(w.impl)
-								if rep.panic != "" {
-									t.Fail("C04/middleware/panic/"+core.PanicSite(rep.panic), "%s", rep.panic)
-									return
-								}
-								session := false
-								for _, ck := range rep.cookies {
-									if ck.Name == "token" && ck.Value != "" {
-										session = true
+									resp := samlgen.DefaultResponse()
+									resp.InResponseTo = mwIRTs[ri].f(ids)
+									resp.Destination = samlgen.S(w.root + "/saml/acs")
+									a := samlgen.DefaultAssertion()
+									a.Confirmations[0].InResponseTo = mwIRTs[ci].f(ids)
+									a.Confirmations[0].Recipient = samlgen.S(w.root + "/saml/acs")
+									a.Audiences = [][]string{{w.root + "/saml/metadata"}}
+									doc := samlgen.Doc(harness.BuildResponse(resp, []*samlgen.Assertion{a}, lay, idp1(), nil))
+									form := url.Values{"SAMLResponse": {b64(doc)}}
+									// RelayState names the flow the Response answers, when that flow's cookie is presented
+									for k := 0; k < nTracked; k++ {
+										if resp.InResponseTo != nil && *resp.InResponseTo == ids[k] {
+											form.Set("RelayState", st.flows[k].index)
+										}
 									}
-								}
-								v := core.MustReject
-								if inSet(resp.InResponseTo, presentedIDs) && inSet(a.Confirmations[0].InResponseTo, presentedIDs) {
-									v = core.MustAccept
-									if form.Get("RelayState") == "" || cookies["saml_"+form.Get("RelayState")] == "" {
+									rep := w.do(0, "POST", "/saml/acs", cookies, form, "c04mw")
+									t.Impl(w.impl)
+									if rep.panic != "" {
+										t.Fail("C04/middleware/panic/"+core.PanicSite(rep.panic), "%s", rep.panic)
+										return
+									}
+									session := false
+									for _, ck := range rep.cookies {
+										if ck.Name == "token" && ck.Value != "" {
+											session = true
+										}
+									}
+									v := core.MustReject
+									if inSet(resp.InResponseTo, presentedIDs) && inSet(a.Confirmations[0].InResponseTo, presentedIDs) {
+										v = core.MustAccept
+										if form.Get("RelayState") == "" || cookies["saml_"+form.Get("RelayState")] == "" {
+											v = core.DontCare
+										}
+									} else if idpInit {
 										v = core.DontCare
 									}
-								} else if idpInit {
-									v = core.DontCare
-								}
-								t.Modelled(v)
-								t.Compared()
-								t.NonTrivial()
-								t.Outcome(fmt.Sprintf("status=%d session=%v", rep.code, session))
-								switch {
-								case v == core.MustReject && session:
-									t.Fail("C04/middleware/session-for-unanswered-request", "%s: a session was established although InResponseTo (Response %s, confirmation %s) is not among the request IDs of the presented tracking cookies %q (status %d)", key, mwIRTs[ri].name, mwIRTs[ci].name, presentedIDs, rep.code)
-								case v == core.MustAccept && !session:
-									t.Fail("C04/middleware/valid-answer-refused", "%s: the response answers a tracked request whose cookie is presented, yet no session was established (status %d)", key, rep.code)
-								}
-								if t.Failed() {
-									t.Input("response_xml", string(doc))
-									t.Input("cookies", fmt.Sprint(cookies))
-								}
-								t.Sample(map[string]interface{}{"case": key, "model": v.String(), "session": session, "status": rep.code})
-							})
+									t.Modelled(v)
+									t.Compared()
+									t.NonTrivial()
+									t.Outcome(fmt.Sprintf("status=%d session=%v", rep.code, session))
+									switch {
+									case v == core.MustReject && session:
+										t.Fail("C04/middleware/session-for-unanswered-request", "%s: a session was established although InResponseTo (Response %s, confirmation %s) is not among the request IDs of the presented tracking cookies %q (status %d)", key, mwIRTs[ri].name, mwIRTs[ci].name, presentedIDs, rep.code)
+									case v == core.MustAccept && !session:
+										t.Fail("C04/middleware/valid-answer-refused", "%s: the response answers a tracked request whose cookie is presented, yet no session was established (status %d)", key, rep.code)
+									}
+									if t.Failed() {
+										t.Input("response_xml", string(doc))
+										t.Input("cookies", fmt.Sprint(cookies))
+									}
+									t.Sample(map[string]interface{}{"case": key, "model": v.String(), "session": session, "status": rep.code})
+								})
+							}
 						}
 					}
 				}
